@@ -481,6 +481,33 @@ fn two_program_directories(acc: &mut Acc) {
             );
         }
     }
+    // the same through the built BINARY, started in the decoy directory: `ruschm DIR/show.scm` finds
+    // the library next to the program file, not in the working directory
+    let bin = crate::props::c17::bin();
+    if std::path::Path::new(&bin).exists() {
+        for (d, dir) in dirs.iter().enumerate() {
+            let prog = dir.join("show.scm");
+            std::fs::write(&prog, format!("(import (scheme base) (scheme write) ({0}))\n(display v{0})\n", NAMES[d])).unwrap();
+            for (how, arg, wd) in [("absolute path, other working directory", prog.to_string_lossy().to_string(), cwd.clone()), ("relative path, own directory", "show.scm".to_string(), dir.clone())] {
+                acc.evals += 1;
+                acc.transitions += 1;
+                let out = std::process::Command::new(&bin).arg(&arg).current_dir(&wd).output();
+                let (stdout, code) = match &out {
+                    Ok(o) => (String::from_utf8_lossy(&o.stdout).to_string(), o.status.code()),
+                    Err(e) => (format!("spawn failed: {}", e), None),
+                };
+                if stdout.trim() != format!("{}", d + 1) || code != Some(0) {
+                    let stderr = out.as_ref().map(|o| String::from_utf8_lossy(&o.stderr).to_string()).unwrap_or_default();
+                    acc.mismatch(
+                        Mismatch { idx: u64::MAX - 101, case: format!("[binary, {}] ruschm {} (imports ({}))", how, arg, NAMES[d]), expected: format!(": prints {} and exits 0 (the library next to the program; decoys are 8xx / 9xx)", d + 1), observed: format!("stdout {:?} status {:?} stderr {:?}", stdout, code, stderr), payload: json!({"programs": [d]}) },
+                        None,
+                    );
+                }
+            }
+        }
+    } else {
+        acc.notes.push(format!("binary {} not built: the program-directory check ran through the library interface only", bin));
+    }
     if let Some(c) = old_cwd {
         let _ = std::env::set_current_dir(c);
     }
@@ -545,7 +572,7 @@ pub fn run(ctx: &Ctx) -> i32 {
             tier: ctx.tier_name(),
             seed: ctx.seed,
             exhaustive: true,
-            rule: format!("every directed graph (self-loops allowed) on 1 and 2 libraries with every assignment of 9 node healths (healthy, missing, faulting body, wrong name in file, syntactically broken, not UTF-8 in the first line, not UTF-8 in a comment after the complete form, path is a directory, healthy behind another library definition in the same source); library files span several lines; every graph on 3 libraries (512) with {}; the library-to-library edges written as plain names and, for all configurations on <= 2 libraries and the all-healthy graphs on 3, as only / prefix / rename / except / mixed / empty-only import sets; for each configuration every history of import attempts on one interpreter (length 3 on <= 2 libraries{}; maximal histories cover their prefixes), with the libraries as files under the program directory (decoy libraries with other values in the working directory) and as registered sources; states = configurations, transitions = import attempts; plus every sequence of <= 3 program files from three directories evaluated on one interpreter (each imports a library that lives next to it, decoys everywhere else)", if ctx.thorough() { "every health assignment (729)" } else { "at most one unhealthy node (25 assignments)" }, if ctx.thorough() { ", length 3 on 3 libraries with at most one unhealthy node, otherwise 2" } else { ", length 2 on 3 libraries" }),
+            rule: format!("every directed graph (self-loops allowed) on 1 and 2 libraries with every assignment of 9 node healths (healthy, missing, faulting body, wrong name in file, syntactically broken, not UTF-8 in the first line, not UTF-8 in a comment after the complete form, path is a directory, healthy behind another library definition in the same source); library files span several lines; every graph on 3 libraries (512) with {}; the library-to-library edges written as plain names and, for all configurations on <= 2 libraries and the all-healthy graphs on 3, as only / prefix / rename / except / mixed / empty-only import sets; for each configuration every history of import attempts on one interpreter (length 3 on <= 2 libraries{}; maximal histories cover their prefixes), with the libraries as files under the program directory (decoy libraries with other values in the working directory) and as registered sources; states = configurations, transitions = import attempts; plus every sequence of <= 3 program files from three directories evaluated on one interpreter (each imports a library that lives next to it, decoys everywhere else), and each of these programs run through the built binary from another working directory", if ctx.thorough() { "every health assignment (729)" } else { "at most one unhealthy node (25 assignments)" }, if ctx.thorough() { ", length 3 on 3 libraries with at most one unhealthy node, otherwise 2" } else { ", length 2 on 3 libraries" }),
             bounds: json!({"configurations": total, "worker_deaths": res.deaths.len()}),
             assumptions: vec!["reference loader: cyclic-import error iff a cycle is reachable through readable libraries, the underlying error kind iff an unhealthy library is reachable, either when both, success otherwise; shared dependencies are not cycles".into(), "hook H2 (verif_in_progress) gives the in-progress set".into()],
             wall_s: ctx.elapsed(),
